@@ -491,6 +491,11 @@ func escAttr(s string, q byte) string {
 	return sb.String()
 }
 
+// serAttr is escAttr plus '>' (legal, and keeps strict parsers that look for "]]>" everywhere happy).
+func serAttr(s string, q byte) string {
+	return strings.ReplaceAll(escAttr(s, q), ">", "&gt;")
+}
+
 func escText(s string) string {
 	var sb strings.Builder
 	for i := 0; i < len(s); i++ {
@@ -536,9 +541,9 @@ func (n *Node) Bytes(st Style) []byte {
 		sb.WriteString("<" + x.qname())
 		for _, d := range x.NS {
 			if d.Prefix == "" {
-				sb.WriteString(" xmlns=" + string(q) + escAttr(d.URI, q) + string(q))
+				sb.WriteString(" xmlns=" + string(q) + serAttr(d.URI, q) + string(q))
 			} else {
-				sb.WriteString(" xmlns:" + d.Prefix + "=" + string(q) + escAttr(d.URI, q) + string(q))
+				sb.WriteString(" xmlns:" + d.Prefix + "=" + string(q) + serAttr(d.URI, q) + string(q))
 			}
 		}
 		attrs := x.Attrs
@@ -553,7 +558,7 @@ func (n *Node) Bytes(st Style) []byte {
 			if a.Prefix != "" {
 				name = a.Prefix + ":" + a.Local
 			}
-			sb.WriteString(" " + name + "=" + string(q) + escAttr(a.Val, q) + string(q))
+			sb.WriteString(" " + name + "=" + string(q) + serAttr(a.Val, q) + string(q))
 		}
 		if len(x.Kids) == 0 {
 			sb.WriteString("/>")
